@@ -490,19 +490,37 @@ theorem getConn_setConn (w : World) (k j : Nat) (c : Conn) :
 def afterConnack (w : World) (sp : Bool) (k : Nat) : World :=
   let w := { w with connReady := true, waitExp := 0,
                     connectReturned := if w.connectReturned.isNone then some sp else w.connectReturned }
-  let w := if w.initialized ∧ (¬ sp ∨ w.cfg.always) then pushTask w .resubscribe else w
-  let w := pushTask w .retry
-  { w with initialized := true, phase := .up k }
+  let w := if w.initialized ∧ (¬ sp ∨ w.cfg.always) ∧ ¬ w.stopped then pushTask w .resubscribe else w
+  let w := if w.stopped then w else pushTask w .retry
+  { w with initialized := true, phase := if w.stopped then .exited else .up k }
 
 theorem afterConnack_frame (w : World) (sp : Bool) (k : Nat) :
     let W := afterConnack w sp k
-    W.handler = w.handler ∧ W.cli = w.cli ∧ W.cfg = w.cfg ∧ W.phase = .up k ∧ W.stuck = w.stuck ∧
+    W.handler = w.handler ∧ W.cli = w.cli ∧ W.cfg = w.cfg ∧
+    W.phase = (if w.stopped then .exited else .up k) ∧ W.stuck = w.stuck ∧
     W.faults = w.faults ∧ W.handled = w.handled ∧ W.conns = w.conns := by
   unfold afterConnack
   dsimp only
-  by_cases hc : w.initialized = true ∧ (¬ sp = true ∨ w.cfg.always = true)
-  · rw [if_pos hc]; simp [pushTask]
-  · rw [if_neg hc]; simp [pushTask]
+  by_cases hs : w.stopped = true
+  · have hc : ¬ (w.initialized = true ∧ (¬ sp = true ∨ w.cfg.always = true) ∧ ¬ w.stopped = true) :=
+      fun h => h.2.2 hs
+    rw [if_neg hc]; simp [hs]
+  · by_cases hc : w.initialized = true ∧ (¬ sp = true ∨ w.cfg.always = true) ∧ ¬ w.stopped = true
+    · rw [if_pos hc]; simp [pushTask, hs]
+    · rw [if_neg hc]; simp [pushTask, hs]
+
+theorem deliverInbound_stopped (w : World) (k m q : Nat) : (deliverInbound w k m q).stopped = w.stopped := by
+  unfold deliverInbound
+  dsimp only
+  split
+  · rfl
+  · split <;> split <;> simp [logPkt, setConn]
+
+theorem deliverAll_stopped (k : Nat) (inb : List (Nat × Nat)) (w : World) :
+    (deliverAll w k inb).stopped = w.stopped := by
+  induction inb generalizing w with
+  | nil => rfl
+  | cons a rest ih => exact (ih (deliverInbound w k a.1 a.2)).trans (deliverInbound_stopped w k a.1 a.2)
 
 theorem connackOk_step (w : World) (k : Nat) (sp : Bool) (inb : List (Nat × Nat)) (h : w.phase = .connackGate k) :
     step w (.connackOk sp inb) =
@@ -515,7 +533,8 @@ theorem connackOk_pre (w : World) (k : Nat) (sp : Bool) (inb : List (Nat × Nat)
     let W0 : World := { setConn w k { getConn w k with connected := true } with
                           broker := if sp then w.broker else w.broker.clearSession }
     let W := afterConnack (deliverAll W0 k inb) sp k
-    W.handler = w.handler ∧ W.cli = w.cli ∧ W.cfg = w.cfg ∧ W.phase = .up k ∧ W.stuck = w.stuck ∧
+    W.handler = w.handler ∧ W.cli = w.cli ∧ W.cfg = w.cfg ∧
+    W.phase = (if w.stopped then .exited else .up k) ∧ W.stuck = w.stuck ∧
     W.faults = w.faults ∧ LLe w.conns W.conns ∧
     W.handled = w.handled ++ (if (getConn w k).alive then
         (match (getConn w k).handler with | some h => inb.map (fun mq => (k, h, mq.1)) | none => []) else []) := by
@@ -528,10 +547,25 @@ theorem connackOk_pre (w : World) (k : Nat) (sp : Bool) (inb : List (Nat × Nat)
     rw [hc, getConn_setConn]; split <;> rfl
   have hha : (getConn W0 k).handler = (getConn w k).handler := by
     rw [hc, getConn_setConn]; split <;> rfl
-  refine ⟨a1.trans d2, a2.trans d3, a3.trans d1, a4, a5.trans d4, a6.trans d5, ?_, ?_⟩
+  have hst : (deliverAll W0 k inb).stopped = w.stopped := deliverAll_stopped k inb W0
+  refine ⟨a1.trans d2, a2.trans d3, a3.trans d1, by rw [a4, hst], a5.trans d4, a6.trans d5, ?_, ?_⟩
   · rw [a8]
     exact hW0.trans (lle_of_pointwise (fun j => deliverAll_conns k inb W0 j))
   · rw [a7, deliverAll_handled, hal, hha]; rfl
+
+/-- a failed Connect: the connection is closed; the loop backs off and dials again, or exits if the
+    client has been stopped -/
+theorem connectFailed_frame (w : World) (k : Nat) :
+    let W := connectFailed w k
+    W.handler = w.handler ∧ W.cli = w.cli ∧ W.cfg = w.cfg ∧ W.stuck = w.stuck ∧ W.faults = w.faults ∧
+    W.handled = w.handled ∧ W.conns = (kill w k).conns ∧
+    W.phase = (if w.stopped then .exited else .dialGate) ∧ W.stopped = w.stopped ∧
+    W.dials = (if w.stopped then w.dials else w.dials + 1) := by
+  unfold connectFailed
+  dsimp only
+  have hs : (kill { w with connReady := true } k).stopped = w.stopped := rfl
+  rw [hs]
+  cases w.stopped <;> simp [kill, setConn, getConn]
 
 /-! ### one environment event -/
 
@@ -541,7 +575,7 @@ theorem step_handler (w : World) (e : Ev) :
   | start => simp only [step]; split <;> rfl
   | app r => simp only [step]; split; rfl; exact (pf_progress _).handler
   | dialOk i => simp only [step]; split <;> rfl
-  | dialFail => simp only [step]; split <;> rfl
+  | dialFail => simp only [step]; split <;> (try split) <;> rfl
   | connackOk sp inb =>
     dsimp only
     cases hph : w.phase with
@@ -551,12 +585,12 @@ theorem step_handler (w : World) (e : Ev) :
     | _ => simp only [step, hph]
   | connackRefused =>
     simp only [step]; split
-    · exact (pf_progress _).handler
+    · exact (pf_progress _).handler.trans (connectFailed_frame _ _).1
     · rfl
   | connackNever =>
     simp only [step]; split
     · split
-      · exact (pf_progress _).handler
+      · exact (pf_progress _).handler.trans (connectFailed_frame _ _).1
       · rfl
     · rfl
   | peerClose =>
@@ -573,11 +607,12 @@ theorem step_handler (w : World) (e : Ev) :
     split <;> exact (pf_progress _).handler
 
 theorem HInv_connectFailed {w : World} (hi : HInv w) (k : Nat) : HInv (connectFailed w k) := by
-  refine hi.frame rfl rfl ?_ ?_
+  obtain ⟨h1, h2, _, _, _, _, h7, h8, _, _⟩ := connectFailed_frame w k
+  refine hi.frame h1 h2 ?_ ?_
   · intro j hj
-    have : (connectFailed w k).phase = .dialGate := rfl
-    rw [this] at hj; simp at hj
-  · show LLe w.conns (kill { w with connReady := true } k).conns; lle
+    rw [h8] at hj
+    cases hs : w.stopped <;> simp [hs] at hj
+  · rw [h7]; lle
 
 theorem step_HInv (w : World) (e : Ev) (hi : HInv w) : HInv (step w e) := by
   cases e with
@@ -604,7 +639,9 @@ theorem step_HInv (w : World) (e : Ev) (hi : HInv w) : HInv (step w e) := by
   | dialFail =>
     simp only [step]; split
     · exact hi
-    · exact hi.frame rfl rfl (fun _ h => h) (LLe.refl _)
+    · split
+      · refine hi.frame rfl rfl ?_ (LLe.refl _); intro j hj; simp at hj
+      · exact hi.frame rfl rfl (fun _ h => h) (LLe.refl _)
   | connackOk sp inb =>
     cases hph : w.phase with
     | connackGate k =>
@@ -613,7 +650,7 @@ theorem step_HInv (w : World) (e : Ev) (hi : HInv w) : HInv (step w e) := by
       refine HInv.pf (hi.frame h1 h2 ?_ h7) (pf_progress _)
       intro j hj
       rw [h4] at hj
-      simp only [Phase.up.injEq, reduceCtorEq, or_false] at hj
+      cases hs : w.stopped <;> simp [hs] at hj
       subst hj; exact Or.inr hph
     | _ => simp only [step, hph]; exact hi
   | connackRefused =>
@@ -691,7 +728,7 @@ theorem step_handled (w : World) (e : Ev) (hi : HInv w) : (step w e).handled = w
   | start => simp only [step, handOver]; split <;> simp
   | app r => simp only [step, handOver]; split; simp; rw [(pf_progress _).handled]; simp [pushTask]
   | dialOk i => simp only [step, handOver]; split <;> simp
-  | dialFail => simp only [step, handOver]; split <;> simp
+  | dialFail => simp only [step, handOver]; split <;> (try split) <;> simp
   | connackOk sp inb =>
     cases hph : w.phase with
     | connackGate k =>
@@ -701,12 +738,12 @@ theorem step_handled (w : World) (e : Ev) (hi : HInv w) : (step w e).handled = w
     | _ => simp only [step, handOver, hph, List.append_nil]
   | connackRefused =>
     simp only [step, handOver]; split
-    · rw [(pf_progress _).handled]; simp [connectFailed, kill, setConn]
+    · rw [(pf_progress _).handled, (connectFailed_frame _ _).2.2.2.2.2.1]; simp
     · simp
   | connackNever =>
     simp only [step, handOver]; split
     · split
-      · rw [(pf_progress _).handled]; simp [connectFailed, kill, setConn]
+      · rw [(pf_progress _).handled, (connectFailed_frame _ _).2.2.2.2.2.1]; simp
       · simp
     · simp
   | peerClose =>
